@@ -179,6 +179,27 @@ func C18_NodeLeader() {
 		if hdr.view == v {
 			env.Reach("C18.node.accepted_current_view")
 		}
+		return
+	}
+	// a genuine proof-less NEW_VIEW for a later view (1..3 views ahead) from that view's leader: the consumer is told
+	// the leader of the NEW_VIEW's view, whatever view the node itself is still in
+	nvv := v + 1 + primitives.View(env.Choice("nv_views_ahead", 3))
+	ldr := int(uint64(nvv) % 4)
+	if ldr == me {
+		return
+	}
+	var votes []*interfaces.ViewChangeMessage
+	for _, i := range othersOf(me) {
+		votes = append(votes, wd.net.vcm(i, 1, nvv, nil))
+	}
+	nval = len(n.bu.Validations)
+	n.deliver(wd.net.nvm(ldr, 1, nvv, votes, &stub.Block{H: 1, Tag: 0x27, ProposalOK: true}).ToConsensusRawMessage())
+	env.Assert("C18.nv.validated", len(n.bu.Validations) == nval+1)
+	for _, call := range n.bu.Validations[nval:] {
+		env.Assert("C18.consumer_told_the_leader", len(call.Member) == 1 && call.Member[0] == ref.leader(nvv))
+	}
+	if n.m.state.View() == nvv {
+		env.Reach("C18.node.adopted_new_view")
 	}
 }
 
